@@ -8,7 +8,7 @@ from kfv.rules import precond_rules as R
 from kfv.rules import tensor_rules as TR
 
 TECHNIQUE = ('abstract interpretation of the layer algebra over named index spaces, physical units, dtype tokens and qualifiers '
-             '(sym / orth / nonneg / damped), one run per configuration-flag valuation; symbolic hyper-parameter state at the call sites; cache-coherence rule (lazily cached state keyed by its arguments and cleared by every writer of its inputs)')
+             '(sym / orth / nonneg / damped), one run per configuration-flag valuation; symbolic hyper-parameter state at the call sites; cache-coherence rule (lazily cached state keyed by its arguments and cleared by every writer of its inputs); alias analysis of the factor slots against in-place sinks; polynomial normal form of the clip scale')
 EXPLANATION = (
     'compute_a_inv, compute_g_inv and preconditioned_grad of both layer classes are evaluated abstractly for every valuation of '
     '(eigen / eigen+pre-divided / inverse): tensors carry named index spaces (the eigen-index space of a factor differs from the '
